@@ -580,15 +580,12 @@ impl SourceLocation for ForClauseCommand {
 
 impl Display for ForClauseCommand {
     fn fmt(&self, f: &mut std::fmt::Formatter<'_>) -> std::fmt::Result {
-        write!(f, "for {} in ", self.variable_name)?;
+        write!(f, "for {}", self.variable_name)?;
 
         if let Some(values) = &self.values {
-            for (i, value) in values.iter().enumerate() {
-                if i > 0 {
-                    write!(f, " ")?;
-                }
-
-                write!(f, "{value}")?;
+            write!(f, " in")?;
+            for value in values {
+                write!(f, " {value}")?;
             }
         }
 
